@@ -876,7 +876,20 @@ impl Session {
     /// ```
     #[must_use]
     pub fn get_neighbors_outgoing(&self, node: NodeId) -> Vec<(NodeId, EdgeId)> {
-        self.store.edges_from(node, Direction::Outgoing).collect()
+        self.visible_neighbors(node, Direction::Outgoing)
+    }
+
+    /// Adjacency entries of `node` whose edge and far endpoint this session can see.
+    fn visible_neighbors(&self, node: NodeId, direction: Direction) -> Vec<(NodeId, EdgeId)> {
+        let (epoch, tx_id) = self.get_transaction_context();
+        let tx = tx_id.unwrap_or(TxId::SYSTEM);
+        self.store
+            .edges_from(node, direction)
+            .filter(|(other, edge_id)| {
+                self.store.get_edge_versioned(*edge_id, epoch, tx).is_some()
+                    && self.store.get_node_versioned(*other, epoch, tx).is_some()
+            })
+            .collect()
     }
 
     /// Gets incoming neighbors of a node directly, bypassing query planning.
@@ -889,7 +902,7 @@ impl Session {
     /// - Uses backward adjacency index for direct access
     #[must_use]
     pub fn get_neighbors_incoming(&self, node: NodeId) -> Vec<(NodeId, EdgeId)> {
-        self.store.edges_from(node, Direction::Incoming).collect()
+        self.visible_neighbors(node, Direction::Incoming)
     }
 
     /// Gets outgoing neighbors filtered by edge type, bypassing query planning.
@@ -905,8 +918,8 @@ impl Session {
         node: NodeId,
         edge_type: &str,
     ) -> Vec<(NodeId, EdgeId)> {
-        self.store
-            .edges_from(node, Direction::Outgoing)
+        self.visible_neighbors(node, Direction::Outgoing)
+            .into_iter()
             .filter(|(_, edge_id)| {
                 self.get_edge(*edge_id)
                     .is_some_and(|e| e.edge_type.as_str() == edge_type)
